@@ -1633,6 +1633,9 @@ func ruleCopySameName(c *Ctx) []Obligation {
 				if l.f.Name() == k.Name() {
 					same = true
 				}
+				if l.owner == nil {
+					continue // a field of an unnamed struct type (a table row): no sibling to confuse it with
+				}
 				if objName(l.owner.Obj()) == "Value" {
 					continue // the generic argument carrier: its Name is the text of whatever substatement holds it
 				}
@@ -1649,6 +1652,10 @@ func ruleCopySameName(c *Ctx) []Obligation {
 			}
 			var names []string
 			for _, l := range chain {
+				if l.owner == nil {
+					names = append(names, "struct."+recordedFieldName(l.f))
+					continue
+				}
 				names = append(names, objName(l.owner.Obj())+"."+recordedFieldName(l.f))
 			}
 			base := fmt.Sprintf("%s: %s.%s ← %s", c.FnName(fn), objName(a.Obj()), recordedFieldName(k), strings.Join(names, "→"))
@@ -3049,7 +3056,7 @@ func ruleRangeCoalesce(c *Ctx) []Obligation {
 }
 
 func init() {
-	register(&Rule{Name: "CMP.PARALLEL", Props: []string{"C05", "C11", "C09"}, Floor: 2,
+	register(&Rule{Name: "CMP.PARALLEL", Props: []string{"C05", "C11", "C09"}, Floor: 1,
 		Doc: "the comparator handed to sort.Slice / sort.SliceStable indexes nothing but the slice that is being sorted (a parallel slice of keys is not permuted with it)",
 		Run: ruleCmpParallel})
 }
